@@ -20,7 +20,7 @@ def run(chk, tier):
                        "partial library function reachable from the decode entry points (including the derived serde visitors and the Debug/Display "
                        "impls formatted on error paths) is an obligation, discharged by interval analysis over value-numbered terms; an unclassified "
                        "external callee fails closed. R-TERM: every natural loop in that scope must belong to a terminating class. R-ALLOC: every "
-                       "allocation size has a constant upper bound and the scope's call graph is acyclic (bounded stack).")
+                       "allocation size has a constant upper bound, a loop or adaptor closure that runs as often as a number says (Range::next, counter loops) allocates only if the same iteration reads input, and the scope's call graph is acyclic (bounded stack).")
     chk.trust("library tables rules/tables/lib.py: panic family, partial functions with preconditions, total functions (confirmed against rust-src / registry sources)")
     chk.trust("Seek axiom: Seek::stream_position()/seek() return positions <= i64::MAX (file offsets and slice lengths), so start + zext(u32) cannot overflow u64")
     chk.trust("bincode 1.3 decodes structs as fixed-length tuples (visit_seq only); the derived visit_map / field-identifier visitors are unreachable through it")
